@@ -108,6 +108,10 @@ def hyp_all(groups, name, pred, out):
 # ------------------------------------------------------------------------------------------------
 #  z3 translation
 
+USE_UF = [False]     # per-obligation switch: real uninterpreted functions (congruence) instead of one variable per
+                     # syntactically distinct application (cheaper, sound for proving, weaker hypotheses)
+
+
 class Z3Real:
     def __init__(self):
         self.vars = {}      # key -> z3 Real
@@ -183,13 +187,20 @@ class Z3Real:
             elif t == 'ite':
                 r = z3.If(memo[n[1]], memo[n[2]], memo[n[3]])
             elif t == 'f':
-                # uninterpreted function application (congruence is decided by the solver)
-                fn = self.funcs.get((n[1], len(n) - 2))
-                if fn is None:
-                    fn = z3.Function('uf_' + n[1], *([z3.RealSort()] * (len(n) - 1)))
-                    self.funcs[(n[1], len(n) - 2)] = fn
-                r = fn(*[memo[a] for a in n[2:]])
-                self.fapps[(n[1],) + tuple(id(a) for a in n[2:])] = r
+                k = (n[1],) + tuple(id(a) for a in n[2:])
+                if USE_UF[0]:
+                    # uninterpreted function application (congruence is decided by the solver)
+                    fn = self.funcs.get((n[1], len(n) - 2))
+                    if fn is None:
+                        fn = z3.Function('uf_' + n[1], *([z3.RealSort()] * (len(n) - 1)))
+                        self.funcs[(n[1], len(n) - 2)] = fn
+                    r = fn(*[memo[a] for a in n[2:]])
+                    self.fapps[k] = r
+                else:
+                    r = self.fapps.get(k)
+                    if r is None:
+                        r = z3.Real('%s!%d' % (n[1], len(self.fapps)))
+                        self.fapps[k] = r
             elif t == 'b':
                 r = z3.BoolVal(n[1])
             elif t == 'ic':
@@ -376,7 +387,7 @@ def _cvc5_check(solver, timeout_s=30):
     t0 = time.time()
     STATS['cvc5_calls'] += 1
     try:
-        txt = '(set-logic QF_NRA)\n' + solver.to_smt2()
+        txt = ('(set-logic QF_UFNRA)\n' if USE_UF[0] else '(set-logic QF_NRA)\n') + solver.to_smt2()
         txt = txt.replace('(set-info :status unknown)', '')
         with tempfile.NamedTemporaryFile('w', suffix='.smt2', delete=False) as f:
             f.write(txt)
